@@ -123,10 +123,10 @@ def r4_rbe3_order(ctx):
 
 
 RULES = [
-    ("C14-R1", r1_inverse_pair, 12),
-    ("C14-R2", r2_local_frames, 13),
-    ("C14-R3", r3_rbgeom, 6),
-    ("C14-R4", r4_rbe3_order, 3),
+    ("C14-R1", r1_inverse_pair, 14),
+    ("C14-R2", r2_local_frames, 14),
+    ("C14-R3", r3_rbgeom, 7),
+    ("C14-R4", r4_rbe3_order, 4),
 ]
 LEVEL = "other"
 EXPLANATION = ("Static, decided on values: the anchored functions are *executed* by a small interpreter (verifier/c14_np.py: Python statements, closures, "
